@@ -168,6 +168,13 @@ add("C18", "server", "exploration",
 
 WALLET_NOTE = ("Relative to mockcore's wallet emulation (largest-first funding, no signature validation) and a live in-process ord server; scenarios run in worker processes. "
                "Wallet states are built from harness-crafted transactions paying to wallet addresses; amounts outside the lattice are not covered.")
+add("C21", "wallet", "exploration",
+    "complete product enumeration of batch files x wallet state through the real `ord wallet batch`, commit and reveal mined, every clause read back from the index",
+    "Batch files over mode {shared-output, separate-outputs, same-sat, satpoints} x entries x parents x postage x first entry {plain, metadata+metaprotocol, delegate} x etching {none, premine, terms, both} plus designated "
+    "targets (satpoint / sat of a cardinal, reinscription of a wallet inscription, foreign destination) are run by the real command against a wallet holding two parent inscriptions, another inscription, a runic output and "
+    "cardinals; reported ids, locations and destinations must equal what the indexer assigns after mining, parents must be back at wallet addresses, commit and reveal must spend no other inscribed or runic output, and an "
+    "etching must create the named rune with terms and its premine at the reported wallet output.",
+    WALLET_NOTE + " Quantifies over batches the planner accepts: refusals are counted in the evidence, not judged.", "DESIGN.md sections 4 (E6) and 5 C21")
 add("C22", "wallet", "exploration",
     "complete product enumeration of wallet rune inventories x commands x amounts through the real wallet CLI, effects read back from the index",
     "Rune inventories (1-3 runic outputs over two runes, an inscribed runic output) x {send, burn} x amounts {0, 1, one output's balance, +1, total, total+1} and split files (one / two outputs, two runes, zero amount) are run with the "
